@@ -206,7 +206,7 @@ impl DnsCache {
             query_vec.push((srv_record.host().to_string(), RRType::AAAA));
 
             if let Some(new_expire) = expire_at {
-                if let Some(addrs) = self.addr.get_mut(srv_record.host()) {
+                if let Some(addrs) = self.addr.get_mut(&srv_record.host().to_lowercase()) {
                     for addr in addrs {
                         addr.record.set_expire_sooner(new_expire);
                     }
